@@ -189,6 +189,9 @@ pub struct World {
     /// Never use directed claims (fault-injection runs: the harness' own
     /// storage move must not consume the injected fault).
     pub no_directed: bool,
+    /// CAs the exactness oracle leaves out (e.g. a CA whose publisher the
+    /// history removed on purpose).
+    pub oracle_skip: std::collections::BTreeSet<String>,
     _tokio: tokio::runtime::Runtime,
 }
 
@@ -216,6 +219,7 @@ impl World {
             tasks_kv, task_log: vec![], step_log: vec![], script: None,
             diverged: false, tie_rng: crate::util::Rng::new(0x7a5c),
             no_directed: false,
+            oracle_skip: Default::default(),
             _tokio: tokio,
         }
     }
